@@ -131,16 +131,16 @@ impl SNet {
     }
 
     /// Receive everything waiting at the relay; one PeerGot line per datagram
-    fn drain(&mut self) {
+    fn drain(&mut self, short: &mut VecDeque<Short>) {
         let Some(r) = &self.relay else { return };
-        let mut buf = [0u8; 2048];
+        let mut buf = vec![0u8; 65536];
         while let Ok((n, from)) = r.recv_from(&mut buf) {
             if n < 10 || buf[3] != 1 {
                 continue;
             }
             let dst = SocketAddr::from(([buf[4], buf[5], buf[6], buf[7]], u16::from_be_bytes([buf[8], buf[9]])));
             let body = &buf[10..n];
-            let (f, id) = parse_payload(body);
+            let (f, id) = identify(body, short);
             let src = if (1..=S_FLOWS.len()).contains(&f) { S_FLOWS[f - 1].0 } else { "?" };
             let via = self.src_of.entry(from).or_insert_with(|| src.to_string()).clone();
             self.addr_of.insert(via.clone(), from);
@@ -186,6 +186,10 @@ struct SRun<'a> {
     /// replies that were not read while virtual time stood still (see `settle`)
     delayed: u64,
     problems: Vec<(String, String)>,
+    injected: VecDeque<Short>,
+    cur: Option<Short>,
+    /// empty / one-octet datagrams that were sent (their byte counter line was seen) and the relay has not read yet
+    sent_short: VecDeque<Short>,
 }
 
 impl<'a> SRun<'a> {
@@ -209,13 +213,23 @@ impl<'a> SRun<'a> {
                     }
                     "AssocRelease" | "AssocError" => {
                         let src = field(&v, "src").to_string();
+                        // replies still waiting in the association socket are gone with it
+                        if let Some(cs) = self.net.addrs.get(src.as_str()).copied() {
+                            self.world.lock().unwrap().replies.retain(|r| r.1 != cs);
+                        }
                         self.live.remove(&src);
                         self.net.forget(&src);
                     }
                     // the byte counter line follows a datagram that was really sent
+                    "FlowLookup" => self.cur = self.injected.pop_front(),
                     "Metric" if field(&v, "dir") == "out" => {
                         if self.net.up() {
                             self.expect_rx += 1;
+                            if let Some(c) = self.cur {
+                                if c.2 < 4 {
+                                    self.sent_short.push_back(c);
+                                }
+                            }
                         }
                     }
                     "ClientGot" => {
@@ -249,8 +263,9 @@ impl<'a> SRun<'a> {
             iters += 1;
             self.poll_pipe();
             tokio::task::yield_now().await;
-            self.net.drain();
-            let n = self.pump();
+            let n0 = self.pump();
+            self.net.drain(&mut self.sent_short);
+            let n = n0 + self.pump();
             let held = self.opening && self.net.hold.load(Ordering::SeqCst);
             let left_busy = self.fut.is_some() && !held && {
                 let g = self.world.lock().unwrap();
@@ -310,13 +325,14 @@ impl<'a> SRun<'a> {
         let (s, d) = S_FLOWS[f - 1];
         let id = self.next_id;
         self.next_id += 1;
-        let body = payload('q', f, id);
+        let body = payload_sized('q', f, id, MAX_SOCKS);
         ev("ClientDgram", format!("\"f\":{},\"id\":{},\"n\":{}", f, id, body.len()));
+        self.injected.push_back((f, id, body.len()));
         self.world.lock().unwrap().inq.push_back(VDatagram { source: self.net.addrs[s], destination: self.net.addrs[d], payload: body });
     }
 
     async fn apply(&mut self, op: &Op) {
-        if self.fut.is_none() {
+        if self.fut.is_none() || !self.problems.is_empty() {
             return;
         }
         match op {
@@ -335,8 +351,9 @@ impl<'a> SRun<'a> {
                     (true, Some(to), true) => {
                         let id = self.next_id;
                         self.next_id += 1;
-                        let body = payload('r', *f, id);
+                        let body = payload_sized('r', *f, id, MAX_SOCKS);
                         ev("PeerReply", format!("\"f\":{},\"id\":{},\"n\":{}", f, id, body.len()));
+                        self.world.lock().unwrap().replies.push((self.net.addrs[dn], self.net.addrs[sn], (*f, id, body.len())));
                         let mut pkt = vec![0u8, 0, 0, 1];
                         if let SocketAddr::V4(x) = self.net.addrs[dn] {
                             pkt.extend_from_slice(&x.ip().octets());
@@ -373,7 +390,8 @@ impl<'a> SRun<'a> {
                     self.skipped += 1;
                     return;
                 }
-                self.net.drain();
+                self.net.drain(&mut self.sent_short);
+                self.sent_short.clear();
                 self.net.relay = None;
                 ev("Down", String::new());
                 self.settle(None).await;
@@ -431,7 +449,7 @@ impl<'a> SRun<'a> {
 /// One life of the real multiplexer over the SOCKS5 upstream through `ops`
 pub async fn run_one(net: &mut SNet, ops: &[Op]) -> Outcome {
     net.set_up();
-    net.drain();
+    net.drain(&mut VecDeque::new());
     net.refuse.store(false, Ordering::SeqCst);
     net.hold.store(false, Ordering::SeqCst);
     net.src_of.clear();
@@ -473,6 +491,9 @@ pub async fn run_one(net: &mut SNet, ops: &[Op]) -> Outcome {
         skipped: 0,
         delayed: 0,
         problems: Vec::new(),
+        injected: VecDeque::new(),
+        cur: None,
+        sent_short: VecDeque::new(),
     };
     run.settle(None).await;
     run.obs();
